@@ -301,6 +301,30 @@ LIT_MODES = {
     "sub0": (". - 0", [], "plain"), "reparse": ("tojson | tonumber", [], "plain"),
     "fromjson": ("tojson | fromjson", [], "plain"),
     "roundtrip": ("(. + 0) | (tojson | tonumber) == .", [], "plain"),
+    "walk": ('walk(.)', [], "plain"),
+    "entries": ('{a:.} | to_entries[0].value', [], "plain"),
+    "tostream": ('[.] | tostream | select(length == 2) | .[1]', [], "plain"),
+    "getpath": ('[.] | getpath([0])', [], "plain"),
+    "reduce": ('reduce . as $x (null; $x)', [], "plain"),
+    "foreach": ('[foreach (., .) as $x (null; $x; .)] | .[1]', [], "plain"),
+    "limit": ('limit(1; ., .)', [], "plain"),
+    "alt": ('. // 1', [], "plain"),
+    "var": ('. as $x | [$x] | .[0]', [], "plain"),
+    "def": ('def f(g): g; f(.)', [], "plain"),
+    "update": ('[.] | (.[0] |= .) | .[0]', [], "plain"),
+    "assign": ('. as $x | {} | .a = $x | .a', [], "plain"),
+    "groupby": ('[., .] | group_by(.) | .[0][1]', [], "plain"),
+    "flatten": ('[[.]] | flatten | .[0]', [], "plain"),
+    "mapvalues": ('[.] | map_values(.) | .[0]', [], "plain"),
+    "trycatch": ('try error(.) catch .', [], "plain"),
+    "ifthen": ('if . == . then . else 0 end', [], "plain"),
+    "label": ('label $l | ., break $l', [], "plain"),
+    "recurse": ('[[.]] | [..] | .[2]', [], "plain"),
+    "csv": ('[.] | @csv', [], "plain"),
+    "tsv": ('[.] | @tsv', [], "plain"),
+    "sh": ('@sh', [], "plain"),
+    "html": ('@html', [], "plain"),
+    "atjson": ('@json', [], "plain"),
     "raw": (".", ["-r"], "plain"), "color": (".", ["-C"], "plain"),
     "pretty": (".", ["--indent", "2"], "arr"),         # three output lines per literal
 }
